@@ -56,10 +56,50 @@ def c05_worker(item):
     count = len(ws.patches) if goal == "-a" else r.randint(1, len(ws.patches))
     args = base_args(threads=threads, backup=backup, verbosity=verbosity) + ["push"] + (["-a"] if goal == "-a" else [str(count)])
     cfg_sig = {"driver": "seq" if threads == 1 else "par", "verbosity": verbosity or "default"}
+    unloadable_at = None
+    if r.random() < 0.08:
+        # an input error in the middle of the range: a patch names a directory as the file to patch.
+        # Whatever happens, the outcome must be all-or-nothing: nothing saved, nothing recorded.
+        last = min(len(ws.patches), first + count)
+        stop = ws.fail_at if ws.fail_at is not None else last
+        if first < min(stop + 1, last):
+            unloadable_at = r.randrange(first, min(stop + 1, last))
+            for t in ws.trees:
+                t["zdir/inner.txt"] = (b"inner\n", 0o644)
+            pt = ws.patches[unloadable_at]
+            an, bn = wsgen._prefix(pt.strip, "a") + "zdir", wsgen._prefix(pt.strip, "b") + "zdir"
+            extra = (b"diff --git %s %s\n" % (an.encode(), bn.encode()) if pt.git else b"") + b"--- %s\n+++ %s\n@@ -1 +1 @@\n-x\n+y\n" % (an.encode(), bn.encode())
+            if r.random() < 0.5:
+                pt.text = pt.text + extra
+            else:
+                pt.text = extra + pt.text
     with Scratch("c05") as scr:
         orig, work = fresh(scr, ws, first)
         rr = runner.run_rq(binary, work, args)
         res["evals"] = 1
+        if unloadable_at is not None:
+            res.count("runs-with-an-unloadable-target")
+            if rr.timed_out:
+                res["inconclusive"] = "watchdog"
+                return res
+            obs = cli.observe(work)
+            want_applied = [p.name for p in ws.patches[:first]]
+            sig = dict(cfg_sig, **{"class": "input-error-not-all-or-nothing"})
+            if rr.crashed():
+                res.viol(dict(cfg_sig, **{"class": "crash", "rc": str(rr.rc), "where": cli.crash_site(rr.err)}), "crash: %s" % rr.err.decode("utf-8", "replace")[-400:], orig, [binary] + args)
+            elif ws.fail_at is not None and ws.fail_at < unloadable_at:
+                pass  # a failing patch comes first: ordinary outcome, judged by other runs
+            elif rr.rc != 1:
+                res.viol(dict(sig, what="exit-status"), "exit status %s although a target could not be loaded" % rr.rc, orig, [binary] + args)
+            elif (obs["applied"] or []) != want_applied:
+                res.viol(dict(sig, what="applied-patches"), "applied-patches %r, expected %r; stderr %s" % (obs["applied"], want_applied, rr.err.decode("utf-8", "replace")[-300:]), orig, [binary] + args)
+            else:
+                diffs = runner.tree_diff(obs["tree"], obs["dirs"], ws.trees[first], check_dirs=True, rej_paths=list(obs["rej"]))
+                if diffs:
+                    res.viol(dict(sig, what="tree"), "a target could not be loaded (patch %d) but the tree changed: %s; stderr %s" % (unloadable_at, diffs[:3], rr.err.decode("utf-8", "replace")[-300:]), orig, [binary] + args)
+                else:
+                    res.count("held-runs")
+            return res
         out = cli.check_push_outcome(res, ws, work, rr, first, count, cfg_sig, [binary] + args)
         reasons = sorted(set(o.poison for p in ws.patches for o in p.ops if o.poison))
         res.count("runs:threads=%s" % ("1" if threads == 1 else "n"))
@@ -93,3 +133,741 @@ def cli_c05(v, tier, seed):
     b = rq()
     nruns = n(tier, 4000, 60000)
     cli.pool_run(v, c05_worker, [(seed * 1_000_003 + i, b) for i in range(nruns)])
+
+
+# ----------------------------------------------------------------------------
+# C08 quilt metadata
+
+
+def expected_backups(ws, first, k, mode, count, stopped_early):
+    """{'.pc/<patch>/<path>': (bytes, mode or None)} expected after the run, or {} when none are expected"""
+    want = (mode == "always") or (mode in ("onfail", None) and stopped_early)
+    if not want or k == 0:
+        return {}
+    window = k if count == "all" else min(int(count), k)
+    out = {}
+    for i in range(first + k - window, first + k):
+        p = ws.patches[i]
+        before = ws.trees[i]
+        for op in p.ops:
+            names = [op.path] + ([op.new_path] if op.new_path != op.path else [])
+            for nm in names:
+                key = ".pc/%s/%s" % (p.name, nm)
+                if key in out:
+                    continue  # state before the first entry of the patch wins
+                if nm in before:
+                    out[key] = before[nm]
+                else:
+                    out[key] = (b"", None)
+    return out
+
+
+def c08_worker(item):
+    seed, binary = item
+    r = random.Random(seed * 104729 + 8)
+    res = Res()
+    cfg = wsgen.GenConfig(p_fail=0.4, max_patches=r.choice([3, 6, 10]), max_files=r.choice([1, 2, 4]), max_ops=r.choice([1, 3, 4]))
+    ws = wsgen.generate(seed, cfg)
+    threads = r.choice([1, 4])
+    mode = r.choice(["always", "always", "onfail", "never", None])
+    count = r.choice(["all", 0, 1, 2, 5, 100, None])
+    first = 0
+    limit = ws.fail_at if ws.fail_at is not None else len(ws.patches) - 1
+    if limit > 0 and r.random() < 0.4:
+        first = r.randint(0, limit)
+    goal_n = r.choice([None, None, 1, 2, 3])
+    gcount = len(ws.patches) if goal_n is None else goal_n
+    args = base_args(threads=threads, backup=mode, backup_count=count, verbosity="-q") + ["push"] + (["-a"] if goal_n is None else [str(goal_n)])
+    sig0 = {"driver": "seq" if threads == 1 else "par"}
+    with Scratch("c08") as scr:
+        orig, work = fresh(scr, ws, first)
+        rr = runner.run_rq(binary, work, args)
+        res["evals"] = 1
+        out = cli.check_push_outcome(res, ws, work, rr, first, gcount, sig0, [binary] + args)
+        if not out:
+            # the C05 oracle failed: that is C05's finding, not a metadata verdict
+            res["violations"] = [v for v in res["violations"] if v["sig"].get("class") == "crash"]
+            res.count("runs-not-judged-(C05-oracle-failed)")
+            return res
+        k, exp_tree, fail_idx, obs = out
+        last = min(len(ws.patches), first + gcount)
+        stopped_early = (first + k) != last
+        eff_count = 100 if count is None else count
+        exp = expected_backups(ws, first, k, mode, eff_count, stopped_early)
+        got = {p: v for p, v in obs["pc"].items() if v[0] == "f" and p != ".pc/applied-patches"}
+        res.count("runs:backup=%s" % mode)
+        res.count("runs:count=%s" % count)
+        if exp:
+            res.count("runs-with-backups-expected")
+        else:
+            res.count("runs-with-no-backups-expected")
+        bad = None
+        for p, (data, m) in exp.items():
+            g = got.get(p)
+            if g is None:
+                bad = ("backup-missing", p, "")
+            elif g[1] != data:
+                bad = ("backup-content", p, "expected %r got %r" % (data[:60], g[1][:60]))
+            elif m is not None and g[2] != m:
+                bad = ("backup-mode", p, "expected %o got %o" % (m, g[2]))
+            if bad:
+                break
+        if not bad:
+            for p in got:
+                if p not in exp:
+                    bad = ("backup-unexpected", p, "%d bytes" % len(got[p][1]))
+                    break
+        if not bad and exp:
+            # simulated pop: restore newest first
+            tree = {p: (v[1], v[2]) for p, v in obs["tree"].items()}
+            window = k if eff_count == "all" else min(int(eff_count), k)
+            for i in range(first + k - 1, first + k - window - 1, -1):
+                pn = ws.patches[i].name
+                pre = ".pc/%s/" % pn
+                for p, v in got.items():
+                    if p.startswith(pre):
+                        path = p[len(pre):]
+                        if len(v[1]) == 0:
+                            tree.pop(path, None)
+                        else:
+                            tree[path] = (v[1], v[2])
+            want_tree = ws.trees[first + k - window]
+            a = {p: v for p, v in tree.items() if v[0]}
+            b = {p: (v[0], v[1] & 0o7777) for p, v in want_tree.items() if v[0]}
+            if a != b:
+                diffp = sorted(set(a) ^ set(b)) or [p for p in a if a[p] != b.get(p)]
+                bad = ("simulated-pop-differs", diffp[0] if diffp else "?", "")
+        if bad:
+            res.viol(dict(sig0, **{"class": bad[0]}), "%s %s %s (backup mode %s count %s, k=%d first=%d)" % (bad[0], bad[1], bad[2], mode, count, k, first),
+                     work + ".orig", [binary] + args, extra={"workspace": ws.describe()})
+        else:
+            res.count("held-runs")
+            # non-trivial: a file touched by >= 2 applied patches inside the window
+            if exp:
+                touched = {}
+                window = k if eff_count == "all" else min(int(eff_count), k)
+                for i in range(first + k - window, first + k):
+                    for op in ws.patches[i].ops:
+                        touched.setdefault(op.path, set()).add(i)
+                if any(len(s) >= 2 for s in touched.values()):
+                    res["nontrivial"].append(case_key(cli.ws_shape_key(ws), mode, count, first, gcount, threads))
+                    res.count("file-touched-by>=2-patches-in-window")
+                if any(len([o for o in ws.patches[i].ops if o.path == op.path]) >= 2 for i in range(first + k - window, first + k) for op in ws.patches[i].ops):
+                    res.count("several-entries-for-one-file-in-a-patch")
+                if any(o.kind == "rename" for i in range(first + k - window, first + k) for o in ws.patches[i].ops):
+                    res.count("rename-in-window")
+                if first:
+                    res.count("prior-applied-state")
+        if seed % 400 == 3:
+            res["sample"] = {"workspace": ws.describe(), "args": args, "first_applied": first, "applied_by_run": k,
+                             "backups_expected": sorted(exp)[:12], "backups_found": sorted(got)[:12]}
+    return res
+
+
+def cli_c08(v, tier, seed):
+    b = rq()
+    cli.pool_run(v, c08_worker, [(seed * 1_000_003 + i, b) for i in range(n(tier, 4000, 60000))])
+
+
+# ----------------------------------------------------------------------------
+# C09 pushes compose
+
+
+def c09_worker(item):
+    seed, binary = item
+    r = random.Random(seed * 15485863 + 9)
+    res = Res()
+    cfg = wsgen.GenConfig(p_fail=0.35, max_patches=r.choice([2, 3, 5, 8]))
+    ws = wsgen.generate(seed, cfg)
+    np_ = len(ws.patches)
+    g = r.randint(1, np_)  # goal: first g patches
+    backup = r.choice(["never", "never", "always", None])
+
+    def inv(goal_kind, upto, threads):
+        a = base_args(threads=threads, backup=backup, verbosity="-q") + ["push"]
+        if goal_kind == "all":
+            return a + ["-a"]
+        if goal_kind == "name":
+            return a + [ws.patches[upto - 1].name]
+        return a  # plain 'push' = one patch
+
+    with Scratch("c09") as scr:
+        orig, single = fresh(scr, ws, 0)
+        split = os.path.join(scr, "split")
+        runner.copy_ws(orig, split)
+        # single invocation to goal g
+        if g == np_ and r.random() < 0.5:
+            a1 = inv("all", g, r.choice([1, 4]))
+        elif r.random() < 0.5:
+            a1 = inv("name", g, r.choice([1, 4]))
+        else:
+            a1 = base_args(threads=r.choice([1, 4]), backup=backup, verbosity="-q") + ["push", str(g)]
+        r1 = runner.run_rq(binary, single, a1)
+        res["evals"] = 1
+        if r1.timed_out:
+            res["inconclusive"] = "watchdog"
+            return res
+        o1 = cli.observe(single)
+        # split: random cut sequence reaching g
+        pos = 0
+        seq = []
+        rs = None
+        applying_invocations = 0
+        guard = 0
+        while pos < g and guard < 40:
+            guard += 1
+            kind = r.choice(["one", "count", "name", "all"] if g == np_ else ["one", "count", "name"])
+            th = r.choice([1, 2, 4])
+            if kind == "one":
+                a = inv("one", None, th)
+                nxt = pos + 1
+            elif kind == "count":
+                c = r.randint(1, g - pos)
+                a = base_args(threads=th, backup=backup, verbosity="-q") + ["push", str(c)]
+                nxt = pos + c
+            elif kind == "name":
+                t = r.randint(pos + 1, g)
+                a = inv("name", t, th)
+                nxt = t
+            else:
+                a = inv("all", None, th)
+                nxt = np_
+            rs = runner.run_rq(binary, split, a)
+            seq.append(a)
+            if rs.timed_out:
+                res["inconclusive"] = "watchdog"
+                return res
+            before = pos
+            ap = runner.read_applied(split) or []
+            pos = len(ap)
+            if pos > before:
+                applying_invocations += 1
+            if rs.rc != 0:
+                break
+            if pos != nxt and rs.rc == 0:
+                break
+        o2 = cli.observe(split)
+        sig0 = {"backup": str(backup)}
+        detail = None
+        if r1.crashed() or (rs is not None and rs.crashed()):
+            bad = r1 if r1.crashed() else rs
+            res.viol(dict(sig0, **{"class": "crash", "rc": str(bad.rc), "where": cli.crash_site(bad.err)}),
+                     "crash: %s" % bad.err.decode("utf-8", "replace")[-500:], orig, a1, extra={"split": seq})
+            return res
+        if (r1.rc == 0) != (rs is None or rs.rc == 0):
+            detail = ("exit-status", "single %s split-final %s" % (r1.rc, rs.rc if rs else None))
+        elif o1["applied"] != o2["applied"]:
+            detail = ("applied-patches", "single %r split %r" % (o1["applied"], o2["applied"]))
+        elif o1["tree"] != o2["tree"]:
+            dp = [p for p in set(o1["tree"]) | set(o2["tree"]) if o1["tree"].get(p) != o2["tree"].get(p)]
+            what = "mode" if (dp and dp[0] in o1["tree"] and dp[0] in o2["tree"] and o1["tree"][dp[0]][1] == o2["tree"][dp[0]][1]) else "content-or-existence"
+            detail = ("tree", "%s differs (%s)" % (sorted(dp)[:3], what))
+            sig0["what"] = what
+        elif o1["dirs"] != o2["dirs"]:
+            detail = ("directories", "single-only %r split-only %r" % (sorted(o1["dirs"] - o2["dirs"]), sorted(o2["dirs"] - o1["dirs"])))
+        elif o1["rej"] != o2["rej"]:
+            detail = ("rejects", "single %r split %r" % (sorted(o1["rej"]), sorted(o2["rej"])))
+        if detail:
+            res.viol(dict(sig0, **{"class": "split-differs", "what": sig0.get("what", detail[0])}),
+                     "single invocation %s vs split %s: %s: %s" % (a1, seq, detail[0], detail[1]), orig, a1,
+                     extra={"split": seq, "workspace": ws.describe()})
+            return res
+        res.count("held-runs")
+        res.count("invocations-in-split", len(seq))
+        if applying_invocations >= 2:
+            res["nontrivial"].append(case_key(cli.ws_shape_key(ws), g, tuple(tuple(x) for x in seq)))
+            res.count("splits-with>=2-applying-invocations")
+        # idempotence / failure resumption: repeat the final invocation on the single copy
+        snap1 = runner.snapshot(single, with_meta=True)
+        r3 = runner.run_rq(binary, single, a1)
+        snap2 = runner.snapshot(single, with_meta=True)
+        o3 = cli.observe(single)
+        if r1.rc == 0:
+            # goal reached: a push to the same named / -a goal must change nothing; 'push N' legitimately applies N more
+            if a1[-1] == "-a":
+                res.count("idempotence-checked")
+                if r3.rc != 0 or snap1 != snap2:
+                    ch = [p for p in set(snap1) | set(snap2) if snap1.get(p) != snap2.get(p)]
+                    res.viol({"class": "repeat-changes-something", "rc": str(r3.rc)}, "repeating %s when everything is applied: rc %s, changed %s" % (a1, r3.rc, sorted(ch)[:5]), orig, a1)
+        else:
+            res.count("failure-resumption-checked")
+            if r3.rc != r1.rc or o3["applied"] != o1["applied"] or o3["tree"] != o1["tree"] or o3["rej"] != o1["rej"] or o3["dirs"] != o1["dirs"] \
+                    or r3.failed_patch() != r1.failed_patch():
+                res.viol({"class": "resume-after-failure-differs"}, "push after a failed push: rc %s->%s failed patch %s->%s applied %s->%s" % (
+                    r1.rc, r3.rc, r1.failed_patch(), r3.failed_patch(), o1["applied"], o3["applied"]), orig, a1)
+        if seed % 400 == 5:
+            res["sample"] = {"workspace": ws.describe(), "single": a1, "split": seq, "exit": r1.rc}
+    return res
+
+
+def cli_c09(v, tier, seed):
+    b = rq()
+    cli.pool_run(v, c09_worker, [(seed * 1_000_003 + i, b) for i in range(n(tier, 2500, 40000))])
+
+
+# ----------------------------------------------------------------------------
+# C13 reject files
+
+
+def expected_rejects(ws, fail_idx):
+    """{rej path: (op, [failing hunks])} for the failing patch; for a rename both names are possible"""
+    out = {}
+    p = ws.patches[fail_idx]
+    for op in p.ops:
+        if not op.poison:
+            continue
+        hunks = [op.hunks[i] for i in op.failing]
+        out[op.path + ".rej"] = (op, hunks)
+    return out
+
+
+def c13_worker(item):
+    seed, binary = item
+    r = random.Random(seed * 32452843 + 13)
+    res = Res()
+    cfg = wsgen.GenConfig(p_fail=1.0, max_patches=r.choice([1, 2, 4]), max_ops=r.choice([2, 4, 5]), max_files=r.choice([2, 4, 6]))
+    cfg.kinds = ["modify"] * 10 + ["create", "delete", "chmod", "truncate"]
+    ws = wsgen.generate(seed, cfg)
+    if ws.fail_at is None:
+        return res
+    threads = r.choice([1, 2, 4, 16])
+    verbosity = r.choice(["-q", None])
+    args = base_args(threads=threads, backup=r.choice(["never", None, "always"]), verbosity=verbosity) + ["push", "-a"]
+    sig0 = {"driver": "seq" if threads == 1 else "par"}
+    with Scratch("c13") as scr:
+        orig, work = fresh(scr, ws, 0)
+        rr = runner.run_rq(binary, work, args)
+        res["evals"] = 1
+        out = cli.check_push_outcome(res, ws, work, rr, 0, len(ws.patches), sig0, [binary] + args)
+        if not out:
+            res["violations"] = [v for v in res["violations"] if v["sig"].get("class") == "crash"]
+            res.count("runs-not-judged-(C05-oracle-failed)")
+            return res
+        k, exp_tree, fail_idx, obs = out
+        exp = expected_rejects(ws, fail_idx)
+        fp = ws.patches[fail_idx]
+        dirs_after = set(obs["dirs"])
+        bad = None
+        got = obs["rej"]
+        for rp, (op, hunks) in exp.items():
+            parent = os.path.dirname(rp)
+            # the directory as the tree (without rejects) defines it
+            tree_dirs = set()
+            for q in exp_tree:
+                d = os.path.dirname(q)
+                while d:
+                    tree_dirs.add(d)
+                    d = os.path.dirname(d)
+            dir_exists = parent == "" or parent in tree_dirs
+            if rp not in got:
+                if dir_exists:
+                    bad = ("reject-missing", rp, "directory exists")
+                    break
+                res.count("reject-legitimately-skipped-(no-directory)")
+                continue
+            if not dir_exists:
+                bad = ("reject-in-nonexistent-directory", rp, "")
+                break
+            header, rh = udiff_read(got[rp][1])
+            names = header_names(header)
+            if op.path.encode("utf-8", "surrogateescape") not in names:
+                bad = ("reject-names-wrong-file", rp, "header names %r, file %r" % (names, op.path))
+                break
+            want = [(tuple(h.old()), tuple(h.new()), h.old_start, h.new_start) for h in hunks]
+            have = [(tuple(h.old()), tuple(h.new()), h.old_start, h.new_start) for h in rh]
+            if want != have:
+                cls = "reject-hunk-count" if len(want) != len(have) else ("reject-hunk-lines" if [w[:2] for w in want] != [h[:2] for h in have] else "reject-line-numbers")
+                bad = (cls, rp, "expected %d hunks %r, got %d hunks %r" % (len(want), [w[2:] for w in want], len(have), [h[2:] for h in have]))
+                break
+            res.count("reject-files-verified")
+            res.count("rejected-hunks-verified", len(hunks))
+        if not bad:
+            for rp in got:
+                if rp not in exp:
+                    bad = ("reject-unexpected", rp, "no failing hunk for this file by construction")
+                    break
+        if bad:
+            res.viol(dict(sig0, **{"class": bad[0]}), "%s %s: %s; patch %s" % (bad[0], bad[1], bad[2], fp.name), orig, [binary] + args,
+                     extra={"workspace": ws.describe()})
+        else:
+            res.count("held-runs")
+            failing_ops = [o for o in fp.ops if o.poison]
+            for o in failing_ops:
+                res.count("failure-reason:%s" % o.poison)
+            partial = any(o.poison == "hunks" and len(o.failing) < len(o.hunks) for o in failing_ops)
+            if partial:
+                res.count("file-with-applying-and-failing-hunks")
+            if len(fp.ops) >= 2 or partial:
+                res["nontrivial"].append(case_key(cli.ws_shape_key(ws), threads, verbosity))
+            if len(failing_ops) >= 2:
+                res.count("several-files-rejected")
+            if fp.reverse:
+                res.count("reversed-failing-patch")
+        if seed % 300 == 7:
+            res["sample"] = {"workspace": ws.describe(), "args": args, "rejects_expected": sorted(exp), "rejects_found": sorted(got)}
+    return res
+
+
+def udiff_read(data):
+    import udiff
+    return udiff.read_hunks(data)
+
+
+def header_names(header_lines):
+    """names on the diff --git / --- / +++ lines of a reject file, unquoted, as bytes"""
+    names = set()
+    for l in header_lines:
+        for pre in (b"--- ", b"+++ "):
+            if l.startswith(pre):
+                names.add(unquote(l[len(pre):].rstrip(b"\n")))
+    return names
+
+
+def unquote(n):
+    if n.startswith(b'"') and n.endswith(b'"') and len(n) >= 2:
+        body = n[1:-1]
+        out = bytearray()
+        i = 0
+        esc = {ord("n"): 10, ord("t"): 9, ord("\\"): 92, ord('"'): 34, ord("a"): 7, ord("b"): 8, ord("f"): 12, ord("r"): 13, ord("v"): 11}
+        while i < len(body):
+            c = body[i]
+            if c == 92 and i + 1 < len(body):
+                d = body[i + 1]
+                if d in esc:
+                    out.append(esc[d])
+                    i += 2
+                    continue
+                if i + 3 < len(body) + 1 and all(48 <= x <= 55 for x in body[i + 1:i + 4]) and len(body[i + 1:i + 4]) == 3:
+                    out.append(int(body[i + 1:i + 4], 8))
+                    i += 4
+                    continue
+            out.append(c)
+            i += 1
+        return bytes(out)
+    # unquoted: up to first whitespace (timestamps may follow)
+    return n.split(b"\t")[0].split(b" ")[0]
+
+
+def cli_c13(v, tier, seed):
+    b = rq()
+    cli.pool_run(v, c13_worker, [(seed * 1_000_003 + i, b) for i in range(n(tier, 6000, 80000))])
+
+
+# ----------------------------------------------------------------------------
+# strace helper
+
+
+def run_traced(binary, cwd, args, log):
+    import stracelog
+    rr = runner.run_rq(binary, cwd, args, pre=stracelog.STRACE + ["-o", log], timeout=120)
+    ev = stracelog.parse(log, cwd) if os.path.exists(log) else []
+    return rr, ev
+
+
+# ----------------------------------------------------------------------------
+# C10 dry-run
+
+
+def c10_worker(item):
+    import stracelog
+    seed, binary = item
+    r = random.Random(seed * 49979687 + 10)
+    res = Res()
+    cfg = wsgen.GenConfig(p_fail=0.5, max_patches=r.choice([1, 3, 6]))
+    ws = wsgen.generate(seed, cfg)
+    threads = r.choice([1, 4])
+    backup = r.choice(["always", "onfail", "never", None])
+    verbosity = r.choice(["-q", None, "-v"])
+    first = 0
+    if ws.fail_at is None and len(ws.patches) > 1 and r.random() < 0.3:
+        first = r.randint(1, len(ws.patches) - 1)
+    goal = ["-a"] if r.random() < 0.7 else [str(r.randint(1, len(ws.patches)))]
+    common_args = base_args(threads=threads, backup=backup, verbosity=verbosity)
+    dry = common_args + ["--dry-run", "push"] + goal
+    real = common_args + ["push"] + goal
+    sig0 = {"driver": "seq" if threads == 1 else "par"}
+    with Scratch("c10") as scr:
+        orig, work = fresh(scr, ws, first)
+        realdir = os.path.join(scr, "real")
+        runner.copy_ws(orig, realdir)
+        before = runner.snapshot(work, with_meta=True)
+        rr, events = run_traced(binary, work, dry, os.path.join(scr, "strace.log"))
+        after = runner.snapshot(work, with_meta=True)
+        res["evals"] = 1
+        if rr.timed_out:
+            res["inconclusive"] = "watchdog"
+            return res
+        if rr.crashed():
+            res.viol(dict(sig0, **{"class": "crash", "rc": str(rr.rc), "where": cli.crash_site(rr.err)}), "dry-run crashed: %s" % rr.err.decode("utf-8", "replace")[-500:], orig, [binary] + dry)
+            return res
+        if before != after:
+            ch = sorted(p for p in set(before) | set(after) if before.get(p) != after.get(p))
+            kinds = "created" if any(p not in before for p in ch) else ("removed" if any(p not in after for p in ch) else "modified-or-touched")
+            res.viol(dict(sig0, **{"class": "dry-run-changed-the-tree", "how": kinds}), "changed by --dry-run: %s" % ch[:6], orig, [binary] + dry)
+            return res
+        wc = [e for e in events if e.write_class and any(stracelog.under(p, work) for p in e.paths)]
+        res.count("syscalls-audited", len(events))
+        if wc:
+            res.viol(dict(sig0, **{"class": "dry-run-write-class-syscall", "call": wc[0].call}), "write-class calls under the working directory during --dry-run: %s" % [e.raw[:160] for e in wc[:4]],
+                     orig, [binary] + dry)
+            return res
+        r2 = runner.run_rq(binary, realdir, real)
+        if r2.timed_out or r2.crashed():
+            res.count("real-run-not-usable-for-prediction")
+            return res
+        if r2.rc != rr.rc or r2.failed_patch() != rr.failed_patch():
+            res.viol(dict(sig0, **{"class": "dry-run-mispredicts", "what": "exit-status" if r2.rc != rr.rc else "failing-patch"}),
+                     "dry-run: exit %s failing %s; real run: exit %s failing %s" % (rr.rc, rr.failed_patch(), r2.rc, r2.failed_patch()), orig, [binary] + dry)
+            return res
+        res.count("held-runs")
+        res.count("dry-runs:exit=%s" % rr.rc)
+        realsnap = runner.snapshot(realdir)
+        b0 = {p: v[:3] for p, v in before.items()}
+        if any(realsnap.get(p) != b0.get(p) for p in set(realsnap) | set(b0)):
+            res["nontrivial"].append(case_key(cli.ws_shape_key(ws), threads, backup, verbosity, first, tuple(goal)))
+            res.count("real-run-writes-something")
+        if seed % 100 == 11:
+            res["sample"] = {"workspace": ws.describe(), "args": dry, "exit": rr.rc, "failing_patch": rr.failed_patch(), "syscalls_seen": len(events),
+                             "calls": sorted(set(e.call for e in events))}
+    return res
+
+
+def cli_c10(v, tier, seed):
+    b = rq()
+    cli.pool_run(v, c10_worker, [(seed * 1_000_003 + i, b) for i in range(n(tier, 1500, 20000))])
+
+
+# ----------------------------------------------------------------------------
+# C15 files are replaced, never edited in place
+
+
+def c15_worker(item):
+    import stracelog
+    seed, binary = item
+    r = random.Random(seed * 67867967 + 15)
+    res = Res()
+    cfg = wsgen.GenConfig(p_fail=0.4, max_patches=r.choice([1, 3, 6]))
+    ws = wsgen.generate(seed, cfg)
+    # bystanders: files no patch names
+    by = {"bystander/keep.txt": (b"do not touch\n", 0o644), "README.bystander": (b"readme\n", 0o600), "src/bystander.c": (b"int main;\n", 0o755)}
+    for t in ws.trees:
+        for p, v in by.items():
+            t[p] = v
+    threads = r.choice([1, 4])
+    mmap = r.random() < 0.5
+    args = base_args(threads=threads, backup=r.choice(["never", "always", None]), verbosity="-q") + (["--mmap"] if mmap else []) + ["push", "-a"]
+    sig0 = {"driver": "seq" if threads == 1 else "par", "loader": "mmap" if mmap else "read"}
+    with Scratch("c15") as scr:
+        orig, work = fresh(scr, ws, 0)
+        twin = os.path.join(scr, "twin")
+        # cp -al of the tree files
+        for p in ws.trees[0]:
+            src = os.path.join(work, p)
+            dst = os.path.join(twin, p)
+            os.makedirs(os.path.dirname(dst), exist_ok=True)
+            os.link(src, dst)
+        before = runner.snapshot(work, with_meta=True)
+        twin_before = runner.snapshot(twin, with_meta=True)
+        rr, events = run_traced(binary, work, args, os.path.join(scr, "strace.log"))
+        res["evals"] = 1
+        if rr.timed_out:
+            res["inconclusive"] = "watchdog"
+            return res
+        if rr.crashed():
+            res.viol(dict(sig0, **{"class": "crash", "rc": str(rr.rc), "where": cli.crash_site(rr.err)}), "crashed: %s" % rr.err.decode("utf-8", "replace")[-500:], orig, [binary] + args)
+            return res
+        after = runner.snapshot(work, with_meta=True)
+        twin_after = runner.snapshot(twin, with_meta=True)
+        res.count("syscalls-audited", len(events))
+        # 1. the twin keeps content and mode
+        for p, v in twin_before.items():
+            w = twin_after.get(p)
+            if v[0] == "f" and (w is None or w[1] != v[1] or w[2] != v[2]):
+                res.viol(dict(sig0, **{"class": "hard-linked-copy-changed", "what": "content" if (w is None or w[1] != v[1]) else "mode"}),
+                         "twin %s changed: the file was edited in place" % p, orig, [binary] + args)
+                return res
+        # 2. changed files have fresh inodes
+        replaced = 0
+        for p, v in after.items():
+            if v[0] != "f" or p.startswith(".pc") or p.startswith("patches/") or p == "series":
+                continue
+            b = before.get(p)
+            if b and b[0] == "f" and (b[1] != v[1] or b[2] != v[2]):
+                replaced += 1
+                if b[3] == v[3]:
+                    res.viol(dict(sig0, **{"class": "changed-file-keeps-inode"}), "%s changed but has the same inode" % p, orig, [binary] + args)
+                    return res
+        # 3. bystanders: untouched in every respect
+        named = set()
+        for p_ in ws.patches:
+            for op in p_.ops:
+                named.update([op.path, op.new_path, op.path + ".orig"])
+        for p, b in before.items():
+            if b[0] != "f" or p in named or p.startswith(".pc") or p.startswith("patches/") or p == "series" or p.endswith(".rej"):
+                continue
+            a = after.get(p)
+            if a != b:
+                res.viol(dict(sig0, **{"class": "bystander-touched", "how": "snapshot"}), "file %s is not named by any patch but changed (inode/mtime/nlink/content): %r -> %r" % (p, b[2:], a[2:] if a else None), orig, [binary] + args)
+                return res
+            full = os.path.join(work, p)
+            hits = [e for e in events if (e.write_class or e.call in ("unlink", "unlinkat")) and full in e.paths]
+            if hits:
+                res.viol(dict(sig0, **{"class": "bystander-touched", "how": hits[0].call}), "file %s is not named by any patch but: %s" % (p, hits[0].raw[:200]), orig, [binary] + args)
+                return res
+            res.count("bystanders-verified")
+        res.count("held-runs")
+        if replaced:
+            res.count("files-replaced", replaced)
+            res["nontrivial"].append(case_key(cli.ws_shape_key(ws), threads, mmap))
+        if rr.rc == 1:
+            res.count("failing-series-(files-resaved-after-rollback)")
+        if seed % 100 == 13:
+            res["sample"] = {"workspace": ws.describe(), "args": args, "exit": rr.rc, "files_replaced": replaced, "syscalls_seen": len(events)}
+    return res
+
+
+def cli_c15(v, tier, seed):
+    b = rq()
+    cli.pool_run(v, c15_worker, [(seed * 1_000_003 + i, b) for i in range(n(tier, 1500, 20000))])
+
+
+# ----------------------------------------------------------------------------
+# C19 names escaping the working tree
+
+
+ESCAPES = [
+    # (name as written after the a/ b/ prefix handling, strip, description); {ABS} = absolute path of a decoy
+    ("../decoy.txt", 0, "dotdot-p0"),
+    ("a/../../decoy.txt", 1, "dotdot-survives-p1"),
+    ("x/a/../../decoy.txt", 2, "dotdot-survives-p2"),
+    ("a/src/../../../decoy.txt", 1, "inner-dotdot"),
+    ("a/./../decoy.txt", 1, "dot-dotdot"),
+    ("{ABS}", 0, "absolute-p0"),
+    ("../dir/new-outside.txt", 0, "dotdot-create-in-dir"),
+    ("a/../../new-outside.txt", 1, "dotdot-create"),
+    ("a/../../dir/..", 1, "trailing-dotdot"),
+    ("a/sub/../../../dir/decoy2.txt", 1, "deep-dotdot"),
+]
+
+
+def c19_worker(item):
+    import stracelog
+    seed, binary = item
+    r = random.Random(seed * 86028121 + 19)
+    res = Res()
+    cfg = wsgen.GenConfig(p_fail=0.0, max_patches=r.choice([1, 2, 4]), allow_strip=False)
+    ws = wsgen.generate(seed, cfg)
+    esc_name, strip, label = r.choice(ESCAPES)
+    where = r.choice(["both", "old-only", "new-only", "git-line", "rename-to", "rename-from"])
+    action = r.choice(["modify", "create", "delete"])
+    quoted = r.random() < 0.3
+    threads = r.choice([1, 4])
+    pos = r.randint(0, len(ws.patches))
+    with Scratch("c19") as scr:
+        outer = os.path.join(scr, "outer")
+        os.makedirs(os.path.join(outer, "dir"))
+        decoys = {"decoy.txt": b"decoy line 1\ndecoy line 2\ndecoy line 3\n", "dir/decoy2.txt": b"decoy line 1\ndecoy line 2\ndecoy line 3\n", "abs.txt": b"decoy line 1\ndecoy line 2\ndecoy line 3\n"}
+        for p, d in decoys.items():
+            with open(os.path.join(outer, p), "wb") as f:
+                f.write(d)
+        work = os.path.join(outer, "ws")
+        name = esc_name.replace("{ABS}", os.path.join(outer, "abs.txt"))
+
+        def q(nm):
+            b = nm.encode()
+            if quoted:
+                return b'"' + b"".join(b"\\%03o" % c if c in (0x2e, 0x22, 0x5c, 0x09) else bytes([c]) for c in b) + b'"'
+            import udiff
+            return udiff.quote_name(b)
+
+        inside = ("a/" if strip == 1 else "x/a/" if strip == 2 else "") + "inside-%d.txt" % seed
+        old_n, new_n = name, name
+        if where == "old-only":
+            new_n = inside
+        elif where == "new-only":
+            old_n = inside
+        body_mod = b"@@ -1,3 +1,3 @@\n decoy line 1\n-decoy line 2\n+PWNED\n decoy line 3\n"
+        body_create = b"@@ -0,0 +1,2 @@\n+PWNED\n+created outside\n"
+        body_delete = b"@@ -1,3 +0,0 @@\n-decoy line 1\n-decoy line 2\n-decoy line 3\n"
+        if where in ("rename-to", "rename-from"):
+            # rename between an inside file and an outside name
+            victim = sorted(ws.trees[pos])[0] if ws.trees[pos] else None
+            if victim is None:
+                return res
+            pre = ("a/" if strip >= 1 else "")
+            if strip == 2:
+                pre = "x/a/"
+            inside_n = pre + victim
+            if where == "rename-to":
+                text = b"diff --git " + q(inside_n) + b" " + q(name) + b"\nrename from x\nrename to y\n"
+            else:
+                text = b"diff --git " + q(name) + b" " + q(inside_n) + b"\nrename from x\nrename to y\n"
+        elif where == "git-line":
+            text = b"diff --git " + q(old_n) + b" " + q(new_n) + b"\nold mode 100644\nnew mode 100755\n"
+        else:
+            if action == "modify":
+                text = b"--- " + q(old_n) + b"\n+++ " + q(new_n) + b"\n" + body_mod
+            elif action == "create":
+                text = b"--- /dev/null\n+++ " + q(new_n if where != "old-only" else old_n) + b"\n" + body_create
+            else:
+                text = b"--- " + q(old_n if where != "new-only" else new_n) + b"\n+++ /dev/null\n" + body_delete
+        evil = wsgen.PatchSpec("evil.patch", [], strip=strip)
+        evil.text = text
+        evil.series_line = "evil.patch" + ("" if strip == 1 else " -p%d" % strip)
+        patches = ws.patches[:pos] + [evil] + ws.patches[pos:]
+        ws2 = wsgen.Workspace()
+        ws2.t0, ws2.patches, ws2.trees = ws.t0, patches, ws.trees
+        wsgen.materialize(ws2, work, applied=0)
+        outside_before = runner.snapshot(outer, with_meta=True, skip=("ws",))
+        args = base_args(threads=threads, backup=r.choice(["never", None, "always"]), verbosity=r.choice(["-q", None])) + ["push", "-a"]
+        sig0 = {"driver": "seq" if threads == 1 else "par", "spelling": label, "where": where}
+        rr, events = run_traced(binary, work, args, os.path.join(scr, "strace.log"))
+        res["evals"] = 1
+        res.count("syscalls-audited", len(events))
+        if rr.timed_out:
+            res["inconclusive"] = "watchdog"
+            return res
+        outside_after = runner.snapshot(outer, with_meta=True, skip=("ws",))
+        argv = [binary] + args
+        extra = {"evil_patch": text.decode("latin-1"), "series_line": evil.series_line, "position": pos}
+        if rr.crashed():
+            res.viol(dict(sig0, **{"class": "crash", "rc": str(rr.rc), "where_": cli.crash_site(rr.err)}), "crashed: %s" % rr.err.decode("utf-8", "replace")[-400:], work, argv, extra)
+            return res
+        if outside_before != outside_after:
+            ch = sorted(p for p in set(outside_before) | set(outside_after) if outside_before.get(p) != outside_after.get(p))
+            how = "created" if any(p not in outside_before for p in ch) else ("deleted" if any(p not in outside_after for p in ch) else "modified")
+            res.viol(dict(sig0, **{"class": "outside-file-" + how}), "outside the working tree: %s %s (patch %r)" % (how, ch[:4], text[:200]), work, argv, extra)
+            return res
+        wc = [e for e in events if (e.write_class or e.call in ("unlink", "unlinkat")) and e.paths and not any(stracelog.under(p, work) for p in e.paths)
+              and not any(p.startswith("/dev/") or p.startswith("/proc/") for p in e.paths)]
+        if wc:
+            res.viol(dict(sig0, **{"class": "write-class-syscall-outside", "call": wc[0].call}), "write-class calls outside the working tree: %s" % [e.raw[:160] for e in wc[:3]], work, argv, extra)
+            return res
+        if rr.rc != 1:
+            res.viol(dict(sig0, **{"class": "escaping-name-accepted", "rc": str(rr.rc)}), "exit status %s for a series containing %r" % (rr.rc, text[:200]), work, argv, extra)
+            return res
+        obs = cli.observe(work)
+        applied = obs["applied"] or []
+        j = len(applied)
+        ok = j <= pos and applied == [p.name for p in patches[:j]]
+        diffs = []
+        if ok:
+            diffs = runner.tree_diff(obs["tree"], obs["dirs"], ws.trees[j], check_dirs=False)
+            ok = not diffs
+        if not ok:
+            res.viol(dict(sig0, **{"class": "unclean-failure"}), "after the refused patch the tree is not the result of the first %d patches (applied-patches %r, offending patch at %d): %s; stderr %s" % (
+                j, applied, pos, diffs[:3], rr.err.decode("utf-8", "replace")[-300:]), work, argv, extra)
+            return res
+        res.count("held-runs")
+        res.count("spelling:%s" % label)
+        res.count("where:%s" % where)
+        res["nontrivial"].append(case_key(label, where, action, quoted, threads, pos, cli.ws_shape_key(ws)))
+        if seed % 100 == 17:
+            res["sample"] = {"evil_patch": text.decode("latin-1"), "series_line": evil.series_line, "position_in_series": pos, "args": args, "exit": rr.rc,
+                             "applied": applied, "stderr_tail": rr.err.decode("utf-8", "replace")[-200:]}
+    return res
+
+
+def cli_c19(v, tier, seed):
+    b = rq()
+    cli.pool_run(v, c19_worker, [(seed * 1_000_003 + i, b) for i in range(n(tier, 1500, 20000))])
